@@ -516,13 +516,17 @@ def check(prop, tier, seed, into=None):
         rres = pool.map(random_run, rjobs, chunksize=64)
     tot["random_traces"] = len(rres)
     alltraces += rres
+    # the same object under a real event loop: asyncio tasks, asyncio.Lock, Task.cancel()
+    from . import eng_aio  # noqa: PLC0415
+    aio = eng_aio.traces_for("tee", tier, seed)
+    alltraces += aio
     # 5. TLC judges the recorded traces against the observable spec
     rejected, st = validate("TeeObs", [{"cfg": t["cfg"], "ev": t["ev"]} for t in alltraces])
     tot["validated"] = st["traces"]
     for idx, matched in sorted(rejected.items()):
         tr = alltraces[idx]
         v.violation(signature(prop, tr, matched),
-                    {"engine": "tee", "mode": "graph" if "seed" not in tr else "random", "spec": "TeeObs",
+                    {"engine": "tee", "mode": "graph" if "seed" not in tr else ("asyncio" if tr["path"][:1] == ["asyncio"] else "random"), "spec": "TeeObs",
                      "cfg": tr["cfg"], "path": tr["path"], "step": matched,
                      "matched_prefix": tr["ev"][max(0, matched - 6): matched], "rejected_event": tr["ev"][matched] if matched < len(tr["ev"]) else None,
                      "drift": tr.get("drift")})
@@ -543,7 +547,7 @@ def check(prop, tier, seed, into=None):
         "states": tot["states"], "transitions": tot["transitions"],
         "traces_validated_against_impl": tot["validated"] + tot["paths"],
         "edge_cover_paths": tot["paths"], "edges": tot["edges"], "drifted_replays": tot["drift"],
-        "drift_benign": tot["drift_benign"], "random_schedule_traces": tot["random_traces"],
+        "drift_benign": tot["drift_benign"], "random_schedule_traces": tot["random_traces"], "asyncio_loop_traces": len(aio),
         "traces_validated_by_TLC_against_TeeObs": tot["validated"], "trace_validation": st,
         "demand_model_states": tot["demand_model_states"],
         "configs": [list(c) for c in TIERS[tier]], "exhaustive": True, "vacuity_guard_actions_taken": vac,
